@@ -410,9 +410,15 @@ def _(f, a):
     return {'add': lambda: f + s, 'eq': lambda: f == s, 'mul': lambda: f * s}[a['o']]()
 
 
-@op('isin', A(v=st.lists(st.sampled_from([0, 1, 'a', True, 2.0, None, -1.5, 'b', 20]), max_size=3)))
+@op('isin', A(v=st.lists(st.sampled_from([0, 1, 'a', True, 2.0, None, -1.5, 'b', 20]), max_size=3), i=_pos(), j=_pos(), own=st.sampled_from([2, 1, 0])))
 def _(f, a):
-    return f.isin(a['v'])
+    # candidates: fixed values of several types plus up to two of the frame's own cells (so that dates, narrow ints ... occur)
+    cand = list(a['v'])
+    n, m = f.shape
+    if n and m:
+        for q in range(a.get('own', 0)):
+            cand.append(f.iloc[(a['i'] + q) % n, (a['j'] + q) % m])
+    return f.isin(cand)
 
 
 @op('clip', A(lo=st.sampled_from([None, 0, 1, -2.5]), hi=st.sampled_from([None, 2, 3.5, 10])))
